@@ -10,6 +10,14 @@
     dependencies name steps; instance naming is injective on (step, class of
     rows agreeing on the used parameters) and never yields a step's name
     (fails for K2 / K2b, see the [_refuted] theorems).
+    Modelling fact: [stage] is a Gallina FUNCTION of the specification -- staging
+    does not depend on earlier stagings of the same Study object (the management
+    tables depends / hub_depends / step_combos / used_params / workspaces kept on
+    the object are re-initialised or overwritten per step before they are read).
+    This is tied to the code by the harness' re-stage stream: a share of the
+    specifications is staged 2-4 times on the SAME Study object (configure_study
+    repeated, or toggled dry_run / throttle / hash_ws / use_tmp in between) and
+    every staging under the model's configuration must equal [stage sp].
     The monitor the harness evaluates on the IMPLEMENTATION's graph is [C08_ok]
     ([c08_monitor]); [C08_monitor_holds] proves it of every staging of the model. *)
 From MWF Require Import Base.Str Base.Util Expand.PyStr Expand.Expand Expand.ExpandProofs
